@@ -15,7 +15,8 @@
 EXTENDS ExactRigid, Json
 
 CONSTANTS QS, PS, AS, GS,     \* rotations, axis points, axial translations <<an, ad>>, planar Gaussian angles
-          QU, KS              \* rotations and multipliers for the two-argument form exp(S, theta)
+          QU, KS,             \* rotations and multipliers for the two-argument form exp(S, theta)
+          QM, GM, PM          \* (few) rotations, planar angles and axis points for the multi-valued forms
 
 ScrewM(q, p, an, ad) ==
   Compose(Compose(Compose(Trans(p, 1), Mk(QCanon(q), <<0,0,0>>, 1)), Trans(Scale3(an, << q[2], q[3], q[4] >>), ad)),
@@ -57,7 +58,27 @@ UnitExp2(g, p, n) ==
   /\ c' = [k |-> "unit2", g |-> g, p |-> p, n |-> n]
   /\ m' = Hom(Pow(ScrewM(<< g[1], 0, 0, g[2] >>, p, 0, 1), n))
 
+\* the class-level forms on SEQUENCES: N twists given as an N x 6 (N x 3) array or a list, exponentiated value by
+\* value; the logarithm (twist or matrix form) and the pose <-> twist conversions of an N-valued pose, value by value.
+\* N = 3 is included on purpose (a 3 x 3 array of rotation vectors is ambiguous with an so(3) matrix; the documented
+\* decider is the keyword so3=False)
+Multi3(qs, p, a) ==
+  /\ c.k = "none"
+  /\ \A i \in 1..Len(qs) : << qs[i][2], qs[i][3], qs[i][4] >> # <<0,0,0>>
+  /\ c' = [k |-> "multi3", qs |-> qs, p |-> p, an |-> a[1], ad |-> a[2]]
+  /\ m' = [i \in 1..Len(qs) |-> Hom(ScrewM(qs[i], p, a[1], a[2]))]          \* one exact matrix per value
+Multi2(gs, p) ==
+  /\ c.k = "none"
+  /\ p[3] = 0
+  /\ c' = [k |-> "multi2", gs |-> gs, p |-> p]
+  /\ m' = [i \in 1..Len(gs) |-> Hom(ScrewM(<< gs[i][1], 0, 0, gs[i][2] >>, p, 0, 1))]
+
+QSeqs == { <<a, b>> : a \in QM, b \in QM } \cup { <<a, b, cc>> : a \in QM, b \in QM, cc \in QM }
+GSeqs == { <<a, b>> : a \in GM, b \in GM } \cup { <<a, b, cc>> : a \in GM, b \in GM, cc \in GM }
+
 Next ==
+  \/ \E qs \in QSeqs : \E p \in PM : \E a \in AS : Multi3(qs, p, a)
+  \/ \E gs \in GSeqs : \E p \in PM : Multi2(gs, p)
   \/ \E q \in QU : \E p \in PS : \E n \in KS : UnitExp3(q, p, n)
   \/ \E g \in GS : \E p \in PS : \E n \in KS : UnitExp2(g, p, n)
   \/ \E q \in QS : \E p \in PS : \E a \in AS : Screw3(q, p, a)
